@@ -135,3 +135,6 @@ func (db *DB) VerifSetWatermarkWindow(n int) {
 	db.orc.txnMark.VerifSetWindow(n)
 	db.orc.readMark.VerifSetWindow(n)
 }
+
+// VerifReadMarkDoneUntil exposes the oracle's read watermark (diagnostics).
+func (db *DB) VerifReadMarkDoneUntil() uint64 { return db.orc.readMark.DoneUntil() }
